@@ -28,6 +28,9 @@ CHECKS["C15"] = dict(cat="proof", tech=TECH,
 CHECKS["C14"] = dict(cat="proof", tech=TECH,
    text="Contracts on interaction-type choice, GQRS/CTW inelasticity ranges, shower fractions for every neutrino type and interaction kind (including the secondary retry loop via loop invariants), cross-section positivity/monotonicity/CC+NC=total, interaction lengths, and the Event tree API; obligations generated from the current source and discharged by z3.",
    note=PROOF_NOTE + " Event-tree shapes are bounded (B); agreement with published distributions is N.", ref="§5 C14")
+CHECKS["C18"] = dict(cat="proof", tech=TECH,
+   text="Contracts on the uniform tracer (reflection points, image-geometry length, directions, tof) for symbolic geometry and on the layered tracer's index walks, chain sums, Snell relation at boundaries, unit transmission and tracer dispatch; obligations from the current source discharged by z3 / Groebner bases.",
+   note=PROOF_NOTE + " Reflection counts and layer counts are bounded (B); chain continuity inside LayeredRayTracer.solutions and the split-medium equivalence are N.", ref="§5 C18")
 NOT_YET = {}
 def main():
     props = [json.loads(l) for l in open(os.path.join(HERE, "properties.jsonl"))]
